@@ -22,17 +22,17 @@ import (
 func init() {
 	core.Register(&core.Property{
 		ID:   "C01",
-		Rule: "streams: (1) every binary/unary operator x boundary-pool operand pairs, every function-table name x arity 0..4 x receiver pool x argument pool; (2) grammar-directed expression trees on generated resources of R4 types with option sets; (3) byte-mutated sources; (4) patch operation x path x value x index. distinct_nontrivial counts distinct (stream, operator-or-function, operand-class tuple, outcome-kind) keys whose outcome was a value or an error produced by the library (not a compile rejection of the harness' own malformed text)",
+		Rule: "streams: (1) every binary/unary operator x boundary-pool operand pairs, every function-table name x arity 0..4 x receiver pool x argument pool; (2) grammar-directed expression trees on generated resources of R4 types with option sets; (2m) navigation over Bundles / contained lists mixing resource types that share a backbone element name, and un-rooted paths evaluated on resources of different types in turn; (2e) every element (choice wrappers, code wrappers, value-less primitives, partially populated complex types included) of generated resources of every type x 36 operations that convert, compare or combine it; (3) byte-mutated sources; (4) patch operation x path x value x index. distinct_nontrivial counts distinct (stream, operator-or-function, operand-class tuple, outcome-kind) keys whose outcome was a value or an error produced by the library (not a compile rejection of the harness' own malformed text)",
 		Assumptions: []string{
 			"domain bound: source <= 2 KiB, nesting depth <= 64, resources <= ~400 nodes (ANTLR prediction cost is super-linear beyond that)",
 			"nil entries inside the input slice, nil option values and typed-nil elements are caller errors (outside the domain)",
 			"non-termination is refuted only up to a 5 s (re-run: 50 s) process-CPU budget per call",
 		},
 		Run:    runC01,
-		Checks: map[string]func(*core.Env, []json.RawMessage){"expr": replayC01Expr, "patch": replayC01Patch, "src": replayC01Src},
+		Checks: map[string]func(*core.Env, []json.RawMessage){"expr": replayC01Expr, "patch": replayC01Patch, "src": replayC01Src, "mixed": replayC01Mixed, "elements": replayC01Elements},
 		Threshold: func(m *core.Merged) []string {
 			var r []string
-			for _, k := range []string{"stream1/binop", "stream1/func", "stream2/tree", "stream3/mutated", "stream4/patch"} {
+			for _, k := range []string{"stream1/binop", "stream1/func", "stream2/tree", "stream2/mixed", "stream2/elements", "stream3/mutated", "stream4/patch"} {
 				if m.Cover[k] == 0 {
 					r = append(r, "stream not observed: "+k)
 				}
@@ -101,6 +101,8 @@ func replayC01Expr(env *core.Env, a []json.RawMessage) {
 func runC01(env *core.Env) {
 	c01Stream1(env)
 	c01Stream2(env)
+	c01Stream2m(env)
+	c01Stream2e(env)
 	c01Stream3(env)
 	c01Stream4(env)
 }
